@@ -50,6 +50,7 @@ Proof.
     match type of H with (let* _ := ?X in _) = _ => destruct X as [y2| |] end; cbn [bind] in H; try discriminate.
     match type of H with (let* _ := ?X in _) = _ => destruct X as [gamma0| |] end; cbn [bind] in H; try discriminate.
     match type of H with (let* _ := ?X in _) = _ => destruct X as [gamma| |] end; cbn [bind] in H; try discriminate.
+    match type of H with (let* _ := ?X in _) = _ => destruct X as [[]| |] end; cbn [bind] in H; try discriminate.
     match type of H with (let* _ := ?X in _) = _ => destruct X as [tmp3| |] end; cbn [bind] in H; try discriminate.
     match type of H with (let* _ := ld_debug_check syn ?S' in _) = _ => set (s1 := S') in *; destruct (ld_debug_check syn s1) as [[]| |] eqn:DC end;
       cbn [bind] in H; try discriminate.
